@@ -110,6 +110,22 @@ yields exactly the protocol-level worth of the value -/
 theorem C13_slot_read_emit (s : Slot) (hw : s.wf = true) (v : Value) : emit s (read s v) = specVal s v :=
   emit_read s hw v
 
+/-- **The specification's notion of "valid" is the protocol's.** For the scalar kinds (numbers incl. typed enums and
+floats, `typedef.Bool`, times) and a value of the field's type whose number fits its width, `specVal` keeps the value
+exactly when `proto.Value.Valid(baseType)` (the C06 model, `Fit.Value.valid`) holds. A string the protocol calls valid is
+kept (the typed layer also keeps `"\x00"`); an array value of the field's type is always kept (the typed layer treats
+only a nil slice as invalid; fixed-length arrays: `specFixed`). -/
+theorem C13_spec_valid_is_protocol_valid (s : Slot) (hw : s.wf = true) (v : Value) (hv : Value.wf v = true)
+    (ht : typeOf v = s.ptype) :
+    (s.kind = .scalar ∨ s.kind = .bool ∨ s.kind = .time → specVal s v = if valid v s.baseType then some v else none) ∧
+    (s.kind = .str → valid v s.baseType = true → specVal s v = some v) ∧
+    (s.kind = .slice → specVal s v = some v) := by
+  refine ⟨?_, fun hk hval => specVal_str_of_valid s hk v ht hval, fun hk => specVal_slice s hk v ht⟩
+  rintro (hk | hk | hk)
+  · exact specVal_scalar_eq_valid s hk hw v hv ht
+  · exact specVal_bool_eq_valid s hk hw v ht
+  · exact specVal_time_eq_valid s hk hw v hv ht
+
 /-! ### the theorems apply to every message type of the profile, and their hypotheses are met -/
 
 /-- instantiation: all 119 regenerated tables, standard factory -/
